@@ -21,6 +21,7 @@ RULE = (
     "Distinct = distinct case."
 )
 ASSUMPTIONS = [
+    "wait_to_parse acts at creation only; it is checked by whether the object was parsed at creation (enumerated sub-check), not through the witness texts of the other settings.",
     "A channel that does not exist for a setting (e.g. no suppress_lot_divs keyword on PLSSDesc.parse) is replaced by the documented nearest one (parse_tracts keyword) or skipped; the grid cell is then reported as n/a.",
 ]
 
@@ -229,6 +230,25 @@ def oracle_plss(c):
         d6.parse_tracts(config=item)
         if snap_plss(d6)["tracts"] != s1["tracts"]:
             fails.append(Failure(f"plss_channel_parse_tracts_config:{s}", f"{s}={value!r} on {text!r}: parse_tracts(config={item!r}) gives {snap_plss(d6)['tracts']}, config gives {s1['tracts']}", **ctx))
+    if s in TRACTS_KW and isinstance(value, bool):
+        # parse_tracts(setting=False) switches off what the configuration switched on
+        d10 = PLSSDesc(text, config=join(pq, item))
+        d10.parse_tracts(**{s: False})
+        if snap_plss(d10)["tracts"] != base["tracts"]:
+            fails.append(Failure(f"parse_tracts_false_does_not_win:{s}", f"config {item} + parse_tracts({s}=False) on {text!r} gives {snap_plss(d10)['tracts']}, expected the baseline {base['tracts']}", **ctx))
+    if s == "layout":
+        # the layout keyword at creation beats a layout named in the config given at creation (as parse(layout=) does)
+        other = "copy_all" if value != "copy_all" else "TRS_desc"
+        for how, d11 in (("layout keyword over config text", PLSSDesc(text, layout=value, config=join(pq, other))),
+                         ("layout keyword over Config object", PLSSDesc(text, layout=value, config=Config(join(pq, f"layout.{other}"))))):
+            if snap_plss(d11) != s1:
+                fails.append(Failure("plss_init_layout_keyword_does_not_win", f"PLSSDesc({text!r}, layout={value!r}, config={other!r}) [{how}] gives {snap_plss(d11)['tracts']} [{snap_plss(d11)['layout']}], "
+                                     f"layout={value!r} alone gives {s1['tracts']} [{s1['layout']}]", **ctx))
+                break
+        d12 = PLSSDesc(text, config=join(pq, other), wait_to_parse=True)
+        d12.parse(layout=value)
+        if snap_plss(d12)["tracts"] != s1["tracts"]:
+            fails.append(Failure("plss_parse_layout_keyword_does_not_win", f"config {other} + parse(layout={value!r}) on {text!r} gives {snap_plss(d12)['tracts']}, expected {s1['tracts']}", **ctx))
     # conflicts
     if c["conflict"] == "kw_over_config" and s in PLSS_KW and isinstance(value, bool):
         d7 = PLSSDesc(text, config=join(pq, f"{s}.False"), wait_to_parse=True)
@@ -409,6 +429,54 @@ def bit_classes(c):
     return [f"setting={c['setting']}", ("bit:" if _last.get("bit") else "nobite:") + c["setting"], f"conflict={c['conflict']}"]
 
 
+# wait_to_parse: the one setting that acts at creation ------------------------------------------------------------------------
+
+WAIT_TEXTS = ["T154N-R97W Sec 14: NE/4", "T154-R97 Sec 14: NE/4, Sec 15: Lots 1 - 3", "NE/4 of Sec 1, T1N-R1E", "no land description here"]
+WAIT_CHANNELS = ["config_bare", "config_value", "config_object", "keyword", "keyword_over_config_false", "keyword_false_over_config", "config_false", "none"]
+
+
+def enum_wait(tier):
+    return [{"text": t, "channel": ch, "extra": ex} for t in WAIT_TEXTS for ch in WAIT_CHANNELS for ex in ("", "parse_qq", "n,w,segment")]
+
+
+def oracle_wait(c):
+    text, ch, extra = c["text"], c["channel"], c["extra"]
+    join = lambda *xs: ",".join(x for x in xs if x)  # noqa: E731
+    want_waiting = ch in ("config_bare", "config_value", "config_object", "keyword", "keyword_over_config_false")
+    if ch == "config_bare":
+        d = PLSSDesc(text, config=join(extra, "wait_to_parse"))
+    elif ch == "config_value":
+        d = PLSSDesc(text, config=join("wait_to_parse.True", extra))
+    elif ch == "config_object":
+        d = PLSSDesc(text, config=Config(join(extra, "wait_to_parse=True")))
+    elif ch == "keyword":
+        d = PLSSDesc(text, config=extra, wait_to_parse=True)
+    elif ch == "keyword_over_config_false":
+        d = PLSSDesc(text, config=join(extra, "wait_to_parse.False"), wait_to_parse=True)
+    elif ch == "keyword_false_over_config":
+        d = PLSSDesc(text, config=join(extra, "wait_to_parse"), wait_to_parse=False)
+    elif ch == "config_false":
+        d = PLSSDesc(text, config=join(extra, "wait_to_parse.False"))
+    else:
+        d = PLSSDesc(text, config=extra)
+    ref = PLSSDesc(text, config=extra)
+    fails = []
+    waiting = len(d.tracts) == 0
+    if waiting != want_waiting:
+        fails.append(Failure(f"wait_to_parse_channel:{ch}", f"PLSSDesc({text!r}) with wait_to_parse given through {ch} [{extra}]: parsed at creation = {not waiting}, expected {not want_waiting}",
+                             text=text, channel=ch))
+        return fails
+    if waiting:
+        # waiting means: nothing parsed yet, the preprocessed text is there, and parse() then gives what an ordinary object has
+        if d.pp_desc != ref.pp_desc:
+            fails.append(Failure("wait_to_parse_pp_desc", f"waiting object has pp_desc {d.pp_desc!r}, an ordinary one {ref.pp_desc!r}", text=text, channel=ch))
+        d.parse()
+    if snap_plss(d) != snap_plss(ref):
+        fails.append(Failure(f"wait_to_parse_result:{ch}", f"{text!r} [{extra}] via {ch}: after parsing {snap_plss(d)['tracts']} {snap_plss(d)['flags']}, an ordinary object gives {snap_plss(ref)['tracts']} {snap_plss(ref)['flags']}",
+                             text=text, channel=ch))
+    return fails
+
+
 SUBS = [
     Sub("roundtrip", oracle_roundtrip, strategy=lambda tier: RT_CASE, nontrivial=lambda c: len(c["cfg"]) >= 2,
         classes=lambda c: [f"n_set={min(len(c['cfg']), 8)}"] + [f"set:{k}" for k in c["cfg"]],
@@ -422,4 +490,6 @@ SUBS = [
     Sub("tract_channels", oracle_tract, strategy=lambda tier: TRACT_CASE, nontrivial=lambda c: bool(_last.get("bit")), classes=bit_classes,
         render=lambda c: {"setting": c["setting"], "fill": c["fill"], "conflict": c["conflict"]},
         n={"quick": 500, "thorough": 6000}, shards={"quick": 4, "thorough": 16}, essential=tuple(f"bit:{s}" for s in TW)),
+    Sub("wait_to_parse", oracle_wait, enumerate=enum_wait, exhaustive=True, nontrivial=lambda c: c["channel"] != "none",
+        classes=lambda c: [f"channel={c['channel']}"], render=lambda c: c, shards={"quick": 2, "thorough": 2}),
 ]
